@@ -149,6 +149,9 @@ impl World {
                         }
                     }));
                 }
+                if let Some(v) = self.opts.get("max_journal") {
+                    b = b.max_journaling_size(v.parse().expect("max_journal"));
+                }
                 if let Some(v) = self.opts.get("compression") {
                     if v == "lz4" {
                         b = b.journal_compression(fjall::CompressionType::Lz4);
@@ -1185,6 +1188,24 @@ fn main() {
                             }
                         } else if let Some(t) = w.stx.remove(&id) {
                             res(&t.commit())
+                        } else {
+                            "err:NoTx".into()
+                        }
+                    }
+                    "spawn_commit" | "spawn_commit_free" => {
+                        // commit an optimistic transaction on its own thread (pausable or not): tx <id> spawn_commit <thread-id>
+                        let pausable = a[1] == "spawn_commit";
+                        if let Some(t) = w.otx.remove(&id) {
+                            let h = std::thread::spawn(move || {
+                                fjall::verif::set_thread_pausable(pausable);
+                                match t.commit() {
+                                    Ok(Ok(())) => "ok".to_string(),
+                                    Ok(Err(_)) => "conflict".to_string(),
+                                    Err(e) => format!("err:{}", errname(&e)),
+                                }
+                            });
+                            threads.insert(a[2].to_string(), h);
+                            "ok".into()
                         } else {
                             "err:NoTx".into()
                         }
